@@ -63,6 +63,12 @@ func cmdKvs(fs *flag.FlagSet, args []string) {
 			}
 		}
 		for i := 0; i < *nops; i++ {
+			if r.Chance(1, 50) {
+				// the store is opened again on the same disk (clean restart): nothing changes
+				store.Delete()
+				store = kvs.MkKVS(d, sz)
+				emit("krestart")
+			}
 			if r.Chance(1, 2) {
 				k := pickKey()
 				res := "panic"
